@@ -16,7 +16,18 @@ REPO = os.environ.get('VERIF_REPO', '/repo')
 # refactorings that are behaviour-preserving for every property but the listed ones (DESIGN.md 13.2):
 # G2 zips the two position tables with a bare `zip(...)` in the runtime, which a rule named `zip`
 # would capture - C20 must report it, the other eighteen checks must stay silent
-BENIGN_EXCEPT = {'G2': {'C20'}}
+BENIGN_EXCEPT = {'G2': {'C20'}, 'P3': {'C20'}}      # P3: a bare `range(...)`
+# refactorings that leave the family of implementation shapes the E2 rules read (DESIGN.md 13.3): the listed
+# checks refuse them - exit 2 with the representation named, never a finding; all other checks stay silent
+REFUSED = {
+    'P1': {'C05', 'C07', 'C08', 'C10', 'C18'},      # driver with two parallel lists
+    'P2': {'C08', 'C09', 'C10', 'C18'},             # conversion loop over a local lazy generator
+    'P3': {'C09', 'C10'},                           # line tables filled in bulk by run length
+    'P4': {'C05', 'C07', 'C08', 'C10', 'C18'},      # driver with an inner resume loop
+    'Q1': {'C15', 'C17'},                           # traverse work list of plain tuples
+    'Q2': {'C08', 'C10', 'C15', 'C17'},             # visit with a rotated loop
+    'Q3': {'C16'},                                  # _transform stages the transformed children
+}
 
 
 def load_mutants():
@@ -40,9 +51,13 @@ def load_mutants():
     for name in sorted(os.listdir(bd)):
         if name.endswith('.diff'):
             hit = BENIGN_EXCEPT.get(name[:-5], set())
+            refused = REFUSED.get(name[:-5], set())
             muts.append({'id': 'refactor-' + name[:-5], 'kind': 'benign',
-                         'props': [p for p in all_props if p not in hit],
+                         'props': [p for p in all_props if p not in hit and p not in refused],
                          'edits': [], 'patch': os.path.join(bd, name)})
+            if refused:
+                muts.append({'id': 'refactor-' + name[:-5] + '-refused', 'kind': 'refuse', 'props': sorted(refused),
+                             'edits': [], 'patch': os.path.join(bd, name)})
             if hit:
                 muts.append({'id': 'refactor-' + name[:-5] + '-hazard', 'kind': 'break', 'props': sorted(hit),
                              'edits': [], 'patch': os.path.join(bd, name)})
@@ -83,7 +98,7 @@ def run_one(mut, tier):
             r = subprocess.run([os.path.join(VERIF, 'check'), pid, '--tier', tier],
                                capture_output=True, text=True, env=env, timeout=1800)
             res[pid] = (r.returncode, r.stdout)
-        want = 1 if mut['kind'] == 'break' else 0
+        want = {'break': 1, 'refuse': 2}.get(mut['kind'], 0)
         ok = all(rc == want for rc, _ in res.values())
         detail = ''
         for pid, (rc, out) in res.items():
